@@ -62,6 +62,7 @@ type Decision struct {
 type Trace struct {
 	Decisions []Decision
 	Deadlock  string   // non-empty: no enabled thread while some were not finished
+	Livelock  string   // non-empty: one thread spins at one place until the step budget is used up
 	Stuck     []string // threads not finished at the end (name @ site)
 	Panics    []string
 	EngineErr string
@@ -94,10 +95,14 @@ type Sched struct {
 	aborted  bool
 	solo     bool // the root goroutine is running harness code (setup / finish); no thread is running
 	maxSteps int
-	delay    bool // delay-bounded cost model
-	rotate   bool // canonical schedule: round robin (the next thread after the one that ran last) instead of "keep running"
-	reverse  bool // canonical schedule: keep running, then the highest thread id first
-	start    time.Time
+	// livelock diagnosis: the thread / place of the last steps and how many of them in a row
+	spinThread *Thread
+	spinSite   string
+	spinCount  int
+	delay      bool // delay-bounded cost model
+	rotate     bool // canonical schedule: round robin (the next thread after the one that ran last) instead of "keep running"
+	reverse    bool // canonical schedule: keep running, then the highest thread id first
+	start      time.Time
 	// OnQuiescent, if set, is called by the scheduler (root goroutine, no thread running) each time no
 	// thread is enabled and before declaring deadlock / letting time pass; it may spawn threads or
 	// perform solo operations. It returns true if it changed something (the scheduler re-evaluates).
@@ -553,6 +558,17 @@ func (s *Sched) loop(horizon time.Duration) {
 		}
 		s.trace.Steps++
 		if s.trace.Steps > s.maxSteps {
+			if s.spinCount > s.maxSteps/2 && s.spinThread != nil {
+				// one thread has been the only one able to make steps for more than half of the budget and never blocked: it
+				// spins (a wait loop that never blocks), which is a verdict about the code, not about the harness
+				s.trace.Livelock = fmt.Sprintf("thread %s spins (last seen at %s): %d consecutive steps without blocking while every other thread is blocked or finished", s.spinThread.Name, s.spinSite, s.spinCount)
+				for _, t := range s.threads {
+					if t.state != stDone {
+						s.trace.Stuck = append(s.trace.Stuck, t.Name+" @ "+t.where())
+					}
+				}
+				return
+			}
 			s.trace.EngineErr = fmt.Sprintf("step budget %d exceeded (livelock or unbounded execution)", s.maxSteps)
 			return
 		}
@@ -648,6 +664,12 @@ func (s *Sched) loop(horizon time.Duration) {
 			ch = s.decide('t', len(enabled), cost, site)
 		}
 		t := enabled[ch]
+		if t == s.spinThread && len(enabled) == 1 {
+			s.spinCount++
+			s.spinSite = t.where()
+		} else {
+			s.spinThread, s.spinSite, s.spinCount = t, t.where(), 1
+		}
 		s.running = t
 		t.state = stRunning
 		t.resume <- struct{}{}
